@@ -631,24 +631,32 @@ pub async fn start_replication_thread(
                     log::info!("replication_ops::start_replication_thread will exist!");
                     break;
                 }
-                let rp_request = Request::parse(&message.to_string()).unwrap();
-                let (request_str, op_log_id_in) = match rp_request {
-                    Request::ReplicateRequest {
+                // A message that cannot be parsed or logged is dropped: a panic here would end
+                // the replication thread and silently stop the oplog and the replication
+                let (request_str, op_log_id_in) = match Request::parse(&message.to_string()) {
+                    Ok(Request::ReplicateRequest {
                         request_str,
                         opp_id,
-                    } => (request_str.to_string(), opp_id),
+                    }) => (request_str.to_string(), opp_id),
                     _ => {
                         log::error!(
                             "replication_ops::start_replication_thread:: Unknown message {}",
                             message
                         );
-                        panic!(
-                            "replication_ops::start_replication_thread:: Unknown message {}",
-                            message
-                        );
+                        continue;
                     }
                 };
-                let request = Request::parse(&request_str).unwrap();
+                let request = match Request::parse(&request_str) {
+                    Ok(request) => request,
+                    Err(e) => {
+                        log::error!(
+                            "replication_ops::start_replication_thread:: Invalid request {} {}",
+                            request_str,
+                            e
+                        );
+                        continue;
+                    }
+                };
 
                 let op_log_id: Result<u64, String> = match request {
                     Request::CreateDb {
@@ -757,7 +765,7 @@ pub async fn start_replication_thread(
                                     "Error replicating message: {} could not get a valid op_log_id",
                                     e
                                 );
-                                panic!("Error trying to replicating message: {}, will crash", e);
+                                continue;
                             }
                         };
                         replicate_message_to_secoundary(op_log_id, request_str.to_string(), &dbs);
@@ -773,7 +781,7 @@ pub async fn start_replication_thread(
                             Ok(id) => id,
                             Err(e) => {
                                 log::error!("Error replicating message: {}", e);
-                                panic!("Error trying to replicating message: {}, will crash", e);
+                                continue;
                             }
                         };
                         replicate_message_to_all(op_log_id, request_str.to_string(), &dbs);
